@@ -151,7 +151,7 @@ Proof.
   replace (Z.leb 0 (Z.of_nat n)) with true by (symmetry; apply Z.leb_le; lia). reflexivity.
 Qed.
 
-Ltac conj := repeat (apply andb_true_intro; split).
+Ltac conj := repeat match goal with |- (_ && _) = true => apply andb_true_intro; split end.
 
 (* ------------------------------------------------------------------ the tail is inert *)
 Lemma get_tail_none : forall E e k,
@@ -235,7 +235,7 @@ Lemma body_valid : forall c E e f,
 Proof.
   intros [t dbg sh] E [m st er et em h ca cp sid sts] f Hs HE (Hm & Het & Hst & Hsid & _ & Hcp).
   cbn [shp e_method e_error e_etype e_stream e_sid e_captured] in *. subst sh cp.
-  unfold env_ok in HE. repeat (apply andb_true_iff in HE as [HE ?]).
+  unfold env_ok in HE. do 11 (apply andb_true_iff in HE as [HE ?]).
   destruct m as [|mx mm]; [contradiction|]. clear Hm.
   destruct er; [|rewrite (Het eq_refl)]; clear Het;
   (destruct sid as [|sx ss]; [destruct st; [exfalso; apply (Hst eq_refl); reflexivity|] | pose proof (Hsid ltac:(discriminate)) as Hsid'; destruct st]);
